@@ -204,6 +204,146 @@ thread_local! {
     static CURRENT_CASE: std::cell::Cell<(u64, u64)> = const { std::cell::Cell::new((u64::MAX, 0)) };
 }
 
+// ------------------------------------------------------------------------- stuck-step watchdog
+//
+// Every budget of the harness is checked between two steps of the cooperative scheduler. Code
+// under test that loops without ever yielding never comes back to that check. A monitor thread
+// therefore watches a heartbeat every worker thread advances between scheduler steps (and
+// between cases); a worker whose heartbeat stands still while the thread burns CPU time (its own
+// CPU clock, not the wall clock: a loaded machine does not advance it) for longer than
+// `STUCK_CPU_S` is executing a step that does not end. The process cannot unwind out of that:
+// the monitor writes the verdict itself and exits.
+pub struct Beat {
+    pub beat: AtomicU64,
+    pub phase: AtomicU64,
+    pub index: AtomicU64,
+    pub tid: u64,
+    pub alive: std::sync::atomic::AtomicBool,
+}
+
+static BEATS: std::sync::Mutex<Vec<std::sync::Arc<Beat>>> = std::sync::Mutex::new(Vec::new());
+/// (property, tier, seed, cross mode) of the check that is running (set by Report::new)
+pub static RUNNING: std::sync::Mutex<Option<(String, String, u64, bool)>> = std::sync::Mutex::new(None);
+
+thread_local! {
+    static MY_BEAT: std::cell::RefCell<Option<std::sync::Arc<Beat>>> = const { std::cell::RefCell::new(None) };
+}
+
+fn my_tid() -> u64 {
+    std::fs::read_link("/proc/thread-self").ok().and_then(|p| p.file_name().and_then(|f| f.to_str().and_then(|s| s.parse().ok()))).unwrap_or(0)
+}
+
+/// advance the calling worker's heartbeat (cheap: one relaxed atomic add)
+pub fn tick() {
+    MY_BEAT.with(|b| {
+        if let Some(b) = b.borrow().as_ref() {
+            b.beat.fetch_add(1, Ordering::Relaxed);
+        }
+    });
+}
+
+struct BeatGuard(std::sync::Arc<Beat>);
+impl Drop for BeatGuard {
+    fn drop(&mut self) {
+        self.0.alive.store(false, Ordering::SeqCst);
+        MY_BEAT.with(|b| *b.borrow_mut() = None);
+    }
+}
+
+fn register_worker() -> BeatGuard {
+    let b = std::sync::Arc::new(Beat {
+        beat: AtomicU64::new(0),
+        phase: AtomicU64::new(u64::MAX),
+        index: AtomicU64::new(0),
+        tid: my_tid(),
+        alive: std::sync::atomic::AtomicBool::new(true),
+    });
+    MY_BEAT.with(|m| *m.borrow_mut() = Some(b.clone()));
+    BEATS.lock().unwrap().push(b.clone());
+    start_monitor();
+    BeatGuard(b)
+}
+
+/// CPU seconds (user + system) thread `tid` of this process has consumed
+fn thread_cpu_s(tid: u64) -> Option<f64> {
+    let s = std::fs::read_to_string(format!("/proc/self/task/{tid}/stat")).ok()?;
+    // fields after the command name (which may contain spaces): skip to the last ')'
+    let rest = &s[s.rfind(')')? + 1..];
+    let f: Vec<&str> = rest.split_whitespace().collect();
+    // rest[0] = state (field 3); utime = field 14, stime = field 15
+    let ut: f64 = f.get(11)?.parse().ok()?;
+    let st: f64 = f.get(12)?.parse().ok()?;
+    Some((ut + st) / 100.0)
+}
+
+pub fn stuck_cpu_limit() -> f64 {
+    let base = std::env::var("VERIF_STUCK_CPU_S").ok().and_then(|s| s.parse::<f64>().ok()).unwrap_or(60.0);
+    // interpreters and sanitizers slow every step down by orders of magnitude
+    if std::env::var("VERIF_SANITIZER").is_ok() { base * 50.0 } else { base }
+}
+
+fn start_monitor() {
+    static STARTED: std::sync::Once = std::sync::Once::new();
+    STARTED.call_once(|| {
+        let _ = std::thread::Builder::new().name("stuck-monitor".into()).spawn(|| {
+            let limit = stuck_cpu_limit();
+            // per worker: (last beat seen, cpu at the time the beat last moved)
+            let mut seen: std::collections::HashMap<u64, (u64, f64)> = std::collections::HashMap::new();
+            loop {
+                std::thread::sleep(std::time::Duration::from_millis(1500));
+                let beats: Vec<std::sync::Arc<Beat>> = {
+                    let mut g = BEATS.lock().unwrap();
+                    g.retain(|b| b.alive.load(Ordering::SeqCst));
+                    g.clone()
+                };
+                for b in beats {
+                    let now = b.beat.load(Ordering::Relaxed);
+                    let Some(cpu) = thread_cpu_s(b.tid) else { continue };
+                    let e = seen.entry(b.tid).or_insert((now, cpu));
+                    if e.0 != now {
+                        *e = (now, cpu);
+                        continue;
+                    }
+                    let phase = b.phase.load(Ordering::SeqCst);
+                    if phase == u64::MAX {
+                        *e = (now, cpu);
+                        continue;
+                    }
+                    if cpu - e.1 >= limit {
+                        report_stuck(phase, b.index.load(Ordering::SeqCst), cpu - e.1);
+                    }
+                }
+            }
+        });
+    });
+}
+
+fn report_stuck(phase: u64, index: u64, cpu: f64) -> ! {
+    let (prop, tier, seed, cross) = RUNNING.lock().unwrap().clone().unwrap_or(("?".into(), "quick".into(), 1, false));
+    let dir = std::path::PathBuf::from(crate::report::VERIF_DIR).join("out/replay");
+    let _ = std::fs::create_dir_all(&dir);
+    let path = dir.join(format!("{prop}-stuck-{phase}-{index}.json"));
+    let sig = "a scheduler step of the code under test does not end (non-yielding loop)";
+    let what = format!("case {index} of parallel loop {phase}: one step of the cooperative scheduler consumed {cpu:.0} s of CPU time without returning (normal steps take microseconds); the process had to be ended from outside the scenario");
+    let body = serde_json::json!({"property": prop, "seed": seed, "tier": tier, "signature": sig, "what": what, "occurrences": 1,
+        "replay": {"_case": {"phase": phase, "index": index}, "stuck_step": true}});
+    let _ = std::fs::write(&path, serde_json::to_string_pretty(&body).unwrap());
+    if cross {
+        println!("INCONCLUSIVE: {what} (while running the workload of another check: {prop})");
+        std::process::exit(2);
+    }
+    if replay_only().is_none() && std::env::var("VERIF_SANITIZER").is_err() {
+        let ev = serde_json::json!({"property_id": prop, "tier": tier, "seed": seed, "level": "exploration",
+            "coverage": {"evaluations": 0, "distinct_nontrivial": 0, "rule": "run ended by the stuck-step monitor", "notes": [what.clone()]},
+            "assumptions": [], "wall_s": 0.0, "violations": 1, "known_findings_reproduced": 0});
+        let _ = std::fs::write(std::path::PathBuf::from(crate::report::VERIF_DIR).join(format!("evidence/{prop}.json")), serde_json::to_string_pretty(&ev).unwrap());
+    }
+    println!("VIOLATION property={prop} replay={}", path.display());
+    println!("  signature: {sig}");
+    println!("  what: {what}");
+    std::process::exit(1);
+}
+
 /// generic replay: run only case `index` of the `phase`-th parallel loop of this check
 pub fn set_replay_only(phase: u64, index: u64) {
     let _ = REPLAY_ONLY.set((phase, index));
@@ -263,6 +403,7 @@ where
                         std::thread::Builder::new()
                             .stack_size(16 << 20)
                             .spawn_scoped(s2, || {
+                                let guard = register_worker();
                                 let mut life = 0u64;
                                 loop {
                                     if let Some(d) = deadline {
@@ -271,14 +412,19 @@ where
                                         }
                                     }
                                     let i = next.fetch_add(1, Ordering::Relaxed);
-                                    if i >= total {
+                                    if i >= total || gave_up() {
                                         return true;
                                     }
                                     if stride > 1 && splitmix(&mut i.clone()) % stride != shard {
                                         continue;
                                     }
                                     CURRENT_CASE.with(|c| c.set((phase, i)));
+                                    guard.0.index.store(i, Ordering::SeqCst);
+                                    guard.0.phase.store(phase, Ordering::SeqCst);
+                                    guard.0.beat.fetch_add(1, Ordering::Relaxed);
                                     let r = f(i);
+                                    guard.0.phase.store(u64::MAX, Ordering::SeqCst);
+                                    guard.0.beat.fetch_add(1, Ordering::Relaxed);
                                     crate::universal::flush_case(phase, i);
                                     CURRENT_CASE.with(|c| c.set((u64::MAX, 0)));
                                     done.fetch_add(1, Ordering::Relaxed);
@@ -302,6 +448,17 @@ where
         }
     });
     done.load(Ordering::Relaxed)
+}
+
+static GIVE_UP: std::sync::atomic::AtomicBool = std::sync::atomic::AtomicBool::new(false);
+
+/// Stop handing out cases: the run already has many violations of the expensive kind (live-locks
+/// burn their whole step budget each); the verdict is decided, more of them add nothing.
+pub fn give_up() {
+    GIVE_UP.store(true, Ordering::SeqCst);
+}
+pub fn gave_up() -> bool {
+    GIVE_UP.load(Ordering::SeqCst)
 }
 
 /// splitmix64 / xoshiro256** — hand written, no external crates.
